@@ -159,25 +159,29 @@ Ltac vp_tac :=
   | Hvp : validate_pre _ _ _ _ = true |- _ => cbn in Hvp; try rewrite andb_false_r in Hvp; discriminate
   end.
 
-Lemma leaf_in_typed (C : dcfg) (U : duniverse) :
+Lemma leaf_core_typed (C : dcfg) (U : duniverse) :
   d_soft C = true -> leaf_cfg_ok (d_leaf C) = true -> readers_typed C ->
-  forall p nullable d v,
+  forall p nullable d0 d v0,
     (d_proto C <> PMsgpack \/ p <> DBytes) ->
-    leaf_in C p nullable d = Ok v -> has_dtype U v (DPrim p).
+    validate_pre C p nullable d0 = true -> norm_bytes C p d0 = Ok d ->
+    leaf_raw C p d = Ok v0 -> validate_native p nullable v0 = Ok tt -> has_dtype U v0 (DPrim p).
 Proof.
-  intros Hsoft Hcfg Hrt p nullable d v Hb H. destruct Hrt as [Hrd Hrdb].
-  destruct C as [pr so iw [fa fb fc] rd rdb]. cbn in *. subst so.
+  intros Hsoft Hcfg Hrt p nullable d0 d v Hb Hvp Hd Er Ev. destruct Hrt as [Hrd Hrdb].
+  destruct C as [pr so iw [fa fb fc fd] rd rdb dec]. cbn in *. subst so.
   unfold leaf_cfg_ok in Hcfg. cbn in Hcfg.
   apply andb_true_iff in Hcfg. destruct Hcfg as [Hcfg ->]. apply andb_true_iff in Hcfg. destruct Hcfg as [-> ->].
-  unfold leaf_in in H. cbn in H.
-  destruct (validate_pre _ p nullable d) eqn:Hvp; cbn in H; [|discriminate].
-  destruct (leaf_raw _ p d) as [v0| |] eqn:Er; cbn in H; try discriminate.
-  destruct (validate_native p nullable v0) as [[]| |] eqn:Ev; cbn in H; try discriminate.
-  inv_ok H.
   assert (forall q s w, rd q s = Ok w -> rd_kind q w) as Hrd' by exact Hrd.
   assert (forall q s w, rdb q s = Ok w -> rd_kind q w) as Hrdb' by exact Hrdb.
   clear Hrd Hrdb.
-  destruct d as [|b|z|f|s|bs|l|kv]; cbn in Er.
+  assert (forall s, d = JStr s -> has_dtype U v (DPrim p)) as Hstr.
+  { intros s ->. cbn in Er.
+    destruct p as [lo hi| | | | |]; cbn in Er; try (destruct pr; cbn in Er); try discriminate;
+      try (inv_ok Er; cbn in *; try exact I; guard_tac);
+      try (apply Hrd' in Er; destruct v as [| |z| | |q| | | |]; cbn in Er; try contradiction; try exact I;
+           try (destruct q; try contradiction; exact I);
+           cbn in Ev; range_tac). }
+  destruct d0 as [|b|z|f|s|bs|l|kv]; cbn in Hd;
+    try (injection Hd as <-; cbn in Er).
   - (* null *) inv_ok Er. exact I.
   - (* bool *)
     destruct p as [lo hi| | | | |]; cbn in Er; try (destruct pr; cbn in Er); inv_ok Er; cbn in *;
@@ -192,24 +196,35 @@ Proof.
       try (destruct f as [z| | |]; cbn in Er; try destruct (is_one_or_zero z)); inv_ok Er; cbn in *;
       try discriminate; try exact I;
       try range_tac; try guard_tac; try vp_tac.
-  - (* text *)
-    destruct p as [lo hi| | | | |]; cbn in Er; try (destruct pr; cbn in Er); try discriminate;
-      try (inv_ok Er; cbn in *; try exact I; first [guard_tac | vp_tac]);
-      try (apply Hrd' in Er; destruct v as [| |z| | |q| | | |]; cbn in Er; try contradiction; try exact I;
-           try (destruct q; try contradiction; exact I);
-           cbn in Ev; range_tac).
-  - (* bytes *)
-    destruct p as [lo hi| | | | |]; cbn in Er; try (destruct pr; cbn in Er); try discriminate;
-      try (inv_ok Er; cbn in *; try exact I; first [guard_tac | vp_tac]);
-      try (apply Hrdb' in Er; destruct v as [| |z| | |q| | | |]; cbn in Er; try contradiction; try exact I;
-           try (destruct q; try contradiction; exact I);
-           cbn in Ev; range_tac).
+  - (* text *) eapply Hstr. reflexivity.
+  - (* bytes: only ByteArray members see them undecoded *)
+    destruct p as [lo hi| | | | |];
+      try (destruct (dec bs) as [s|]; [injection Hd as <-; eapply Hstr; reflexivity|discriminate]).
+    injection Hd as <-. cbn in Er. destruct pr; cbn in Er;
+      try (inv_ok Er; cbn in *; try exact I; guard_tac);
+      apply Hrdb' in Er; destruct v as [| |z| | |q| | | |]; cbn in Er; try contradiction; try exact I;
+      destruct q; try contradiction; exact I.
   - (* list *)
-    destruct p as [lo hi| | | | |]; cbn in Er; try (destruct pr; cbn in Er); try discriminate;
+    destruct p as [lo hi| | | | |]; cbn in Er; try (destruct pr; cbn in Er); try (destruct fd); try discriminate;
       inv_ok Er; cbn in *; try discriminate; first [guard_tac | vp_tac].
   - (* map *)
-    destruct p as [lo hi| | | | |]; cbn in Er; try (destruct pr; cbn in Er); try discriminate;
+    destruct p as [lo hi| | | | |]; cbn in Er; try (destruct pr; cbn in Er); try (destruct fd); try discriminate;
       inv_ok Er; cbn in *; try discriminate; first [guard_tac | vp_tac].
+Qed.
+
+Lemma leaf_in_typed (C : dcfg) (U : duniverse) :
+  d_soft C = true -> leaf_cfg_ok (d_leaf C) = true -> readers_typed C ->
+  forall p nullable d v,
+    (d_proto C <> PMsgpack \/ p <> DBytes) ->
+    leaf_in C p nullable d = Ok v -> has_dtype U v (DPrim p).
+Proof.
+  intros Hsoft Hcfg Hrt p nullable d v Hb H.
+  unfold leaf_in in H. rewrite Hsoft in H. cbn [andb] in H.
+  destruct (validate_pre C p nullable d) eqn:Hvp; cbn [negb] in H; [|discriminate].
+  destruct (norm_bytes C p d) as [d'| |] eqn:En; cbn [bind] in H; try discriminate.
+  destruct (leaf_raw C p d') as [v0| |] eqn:Er; cbn [bind] in H; try discriminate.
+  destruct (validate_native p nullable v0) as [[]| |] eqn:Ev; cbn [bind] in H; try discriminate.
+  inv_ok H. eapply leaf_core_typed; eauto.
 Qed.
 
 Lemma jv_null_dec (d : jv) : d = JNull \/ d <> JNull.
@@ -391,9 +406,9 @@ Section DictTyping.
       inversion Ev. exact I.
     - destruct (complex_in C U (fdv C U k) (DArr e) d) as [v0| |] eqn:Ev; try discriminate. cbn [bind] in H.
       eapply complex_post_typed; [exact H|].
-      unfold complex_in in Ev.
+      unfold complex_in in Ev. rewrite Hnull in Ev.
       destruct d; try (refine (d2o_typed _ _ _ _ _ Hg _ Ev); [intros; eapply IH; eauto|discriminate]).
-      cbn in Ev. inversion Ev. exact I.
+      inversion Ev. exact I.
   Qed.
 
   (** the request: the body document of the call, read as the request message class *)
